@@ -18,6 +18,7 @@ impl Deserialize for ExUnitPrices {
             let len = raw.array()?;
             let mut read_len = CBORReadLen::new(len);
             read_len.read_elems(2)?;
+            read_len.finish()?;
             let mem_price =
                 (|| -> Result<_, DeserializeError> { Ok(SubCoin::deserialize(raw)?) })()
                     .map_err(|e| e.annotate("mem_price"))?;
